@@ -144,6 +144,11 @@ def gen_soup(rng, nops, big=2):
             ops.append(op_jumbo(rng, sh, size))
         elif r < pflush + 0.2:
             ops.append(op_mark(rng, sh))
+        elif r < pflush + 0.215:
+            # the metadata API interleaved with events that are still in the buffer
+            ops.append("attr_str verif.soup.k%d v%d" % (rng.randint(0, 5), rng.randint(0, 99)))
+            if rng.random() < 0.7:
+                ops.append("attr_flush")
         else:
             ops.append(op_event(rng, sh))
     return ops, sh
@@ -347,7 +352,7 @@ def run_aligned(k):
     return out
 
 
-SEG_KINDS = ["ev", "jumbo", "mark", "none"]
+SEG_KINDS = ["ev", "jumbo", "mark", "none", "attr"]      # attr: events followed by ovni_attr_flush() before the flush
 
 
 def segment_scripts():
@@ -372,12 +377,17 @@ def run_segments(k):
     ops = []
     for j, kind in enumerate(kinds):
         for _ in range(rng.randint(1, 4) if kind != "none" else 0):
-            if kind == "ev":
+            if kind in ("ev", "attr"):
                 ops.append(op_event(rng, sh))
             elif kind == "jumbo":
                 ops.append(op_jumbo(rng, sh, rng.choice([0, 1, 5, 100, 3000])))
             else:
                 ops.append(op_mark(rng, sh))
+        if kind == "attr":
+            ops.append("attr_str verif.seg.k%d value-%d" % (j, k))
+            ops.append("attr_flush")
+            if rng.random() < 0.5:
+                ops.append(op_event(rng, sh))
         if j < len(kinds) - 1 or last_flush:
             ops.append("flush"); sh.flush()
     script = make_script([(1000 + k % 50, ops)])
